@@ -41,6 +41,13 @@ import (
 // not count while a dimension is unlimited and the property text does not say
 // whether queries admitted while unlimited count against a limit set later.
 //
+// Restarts: the limits a token is held to are the persisted policy (what the
+// operator configured through the API) or the configured defaults, before and
+// after a restart alike. arc keeps the counters in memory only, and the
+// property text does not say whether they must survive a restart, so admits
+// are only ever counted together when they were decided by the same process
+// incarnation (this can only make the oracle weaker than the text).
+//
 // Internal state (slot length, the limit a limiter object holds) is read
 // through an accessor only to NAME a violation more specifically.
 
@@ -259,6 +266,11 @@ func judge(w *world, out *simkit.Outcome) {
 		}
 	}
 	j.judgeProbes()
+	for _, r := range w.reqs {
+		if r.epoch > 0 && r.kind == "admit" {
+			st["probe.admits-after-restart"]++
+		}
+	}
 	st["probe.judged-admits"] += judged
 	out.Nontrivial = judged > 0 && (rejections > 0 || out.Preempts > 0)
 }
@@ -288,7 +300,7 @@ func (j *judgeCtx) judgeAdmits(tok int64, d *dimension, h *history, admits, reqs
 		count := func(win int64) (seq, all int, minSeq, minAll int64) {
 			seq, all, minSeq, minAll = 1, 1, t.s, t.s
 			for _, o := range admits {
-				if o == t {
+				if o == t || o.epoch != t.epoch {
 					continue
 				}
 				if d.rate {
@@ -361,6 +373,10 @@ func (j *judgeCtx) judgeAdmits(tok int64, d *dimension, h *history, admits, reqs
 			// the limiter object holds another limit than the policy, and the
 			// policy change that set the limit ran concurrently with a request
 			suffix = "stale-limit-after-update-concurrent-with-request"
+		case t.epoch > 0 && h.constIn(j.w.restarts[t.epoch-1], t.e):
+			// the limits in force were never touched by this incarnation of the
+			// process: it holds the token to what it loaded at start-up
+			suffix = "limits-loaded-at-restart"
 		default:
 			if !h.constIn(from, t.e) {
 				suffix = "after-limit-change"
@@ -397,7 +413,7 @@ func (j *judgeCtx) deleteExplains(d *dimension, h *history, admits []*reqRec, t 
 	}
 	cnt := 1
 	for _, o := range admits {
-		if o == t || o.s < last {
+		if o == t || o.s < last || o.epoch != t.epoch {
 			continue
 		}
 		if d.rate {
